@@ -1454,6 +1454,11 @@ def _ints(xs):
 
 
 def call_ext(ex, name, args, kwargs):
+    spy = getattr(ex, 'ext_hooks', {}).get(name)
+    if spy is not None:
+        r = spy(ex, args, kwargs)          # contract harness: observe (or replace) a library call at its call site
+        if r is not NotImplemented:
+            return r
     f = EXT.get(name)
     if f is None:
         if name.startswith('builtins.') and name.split('.')[1] in _EXC_NAMES:
